@@ -8,6 +8,7 @@ S5  property oracle: the property's own clauses evaluated on the Rust outputs
 import math
 from vlib.common import *
 from vlib.fresh import up_to_date
+from vlib.c19_timebox import run_timeboxed_cases
 
 TOL = 1e-12
 WIDTH = ["Bartlett", "Blackman", "Connes", "Cosine", "Hamming", "Welch"]
@@ -402,6 +403,78 @@ def correspondence(ctx, obs, label, max_win=None):
     return nbad
 
 
+# ------------------------------------------------------------------------------------------------ whole domain lists (thorough)
+def full_lists(ctx, obs, chunk=40, budget_s=420):
+    """every entry of a few long domain lists (up to 1e5) against the generated poling_domains, in the inverted form
+    cos(2 pi d) = 1 - 2 a(z_c)^2 (interval goals, `chunk` entries per goal); sums, ranges and the order of each pair are exact
+    rational checks here.  Returns the number of entries compared."""
+    goals, meta, total = [], {}, 0
+    for j, o in enumerate([x for x in obs if x["kind"] == "dom_full"]):
+        n, ap, L, period = o["n"], o["ap"], frac_of_hex(o["L"]), fh(o["period"])
+        pairs = o["pairs"]
+        ctx.seen(("dom_full", o["period"], o["L"], json.dumps(ap, sort_keys=True)))
+        ctx.count("dom_full:entries", len(pairs) // 2)
+        base = {"period_m": period, "crystal_length_m": float(L), "window": ap_plain(ap), "num_domains": n}
+        call = f"PeriodicPoling::new({period!r} m, {ap_desc(ap)}).poling_domains({float(L)!r} m)"
+        want = math.ceil(L / abs(frac_of_hex(o["period"])))
+        if n != want or len(pairs) != 2 * n:
+            ctx.violation("S5", f"{call} has {len(pairs)//2} entries, num_domains = {n}, expected ceil(L/period) = {want}", {"kind": "count", "window": ap["kind"]}, base)
+            continue
+        ds = []
+        bad = None
+        for i in range(n):
+            p, q = frac_of_hex(pairs[2 * i]), frac_of_hex(pairs[2 * i + 1])
+            d = min(p, q)
+            second_half = 2 * i + 1 > n
+            if abs(p + q - 1) > Fraction(1, 10**12) or not (0 <= p <= 1 and 0 <= q <= 1) or d > Fraction(1, 2) + Fraction(1, 10**12) \
+                    or (p != q and (p < q) == second_half):
+                bad = (i, float(p), float(q))
+                break
+            ds.append(d)
+        if bad:
+            ctx.violation("S5", f"{call}[{bad[0]}] = ({bad[1]!r}, {bad[2]!r}): fractions must lie in [0,1], sum to 1, and the narrower one comes first "
+                          f"before the crystal centre and second after it", {"kind": "sum", "window": ap["kind"]}, dict(base, index=bad[0], pair=[bad[1], bad[2]]))
+            continue
+        total += n
+        apc, Lc = ap_coq(ap), coq_q(L)
+        for c0 in range(0, n, chunk):
+            idx = range(c0, min(n, c0 + chunk))
+            parts, tacs = [], []
+            for i in idx:
+                a_term = f"integration_constant {apc} (domain_centre (IZR ({n})%Z) (IZR ({i})%Z)) {Lc}"
+                parts.append(f"Rabs (cos (2 * PI * {coq_q(ds[i])}) - (1 - 2 * ({a_term}) ^ 2)) <= 1e-12")
+                if ap["kind"] == "Interpolate" and len(ap["values"]) > 0:
+                    nv = len(ap["values"])
+                    ii = Fraction(1, 2) * (Fraction(2 * i + 1, n)) * (nv - 1)
+                    tacs.append(f"unfold domain_centre; case_interp ({nv})%Z ({math.floor(ii)})%Z ({math.ceil(ii)})%Z; interval with (i_prec 64)")
+                else:
+                    tacs.append("unfold domain_centre; unfold_windows; interval with (i_prec 64)")
+            goal = " /\\ ".join(parts)
+            tac = tacs[-1]
+            for t in reversed(tacs[:-1]):
+                tac = f"split; [{t} | {tac}]"
+            cid = f"f{j}_{c0}"
+            goals.append((cid, goal, tac))
+            meta[cid] = (o, c0, len(idx))
+    if not goals:
+        return 0
+    res, unchecked = run_timeboxed_cases(ctx, "C19full", IMPORTS, goals, budget_s)
+    nun = sum(meta[c][2] for c in unchecked if c in meta)
+    ctx.cov["full_lists"] = {"entries_total": total, "entries_compared_in_coq": total - nun, "entries_unchecked_time_budget": nun,
+                             "lists": [o["n"] for o in obs if o["kind"] == "dom_full"]}
+    if nun:
+        ctx.note(f"whole-list comparison: {nun} of {total} entries were not reached within the {budget_s}s budget (machine load); {total - nun} compared")
+    for cid, ok in res.items():
+        if ok or cid not in meta:
+            continue
+        o, c0, k = meta[cid]
+        ctx.case_failures.append({"chunk": cid})
+        ctx.violation("S4", f"generated poling_domains and implementation disagree somewhere in entries {c0}..{c0+k-1} of {o['n']} ({ap_desc(o['ap'])})",
+                      {"kind": "model_mismatch", "what": "full_list", "window": o["ap"]["kind"]},
+                      {"period_m": fh(o["period"]), "crystal_length_m": fh(o["L"]), "window": ap_plain(o["ap"]), "first_index": c0, "entries": k}, found_input=False)
+    return total
+
+
 # ------------------------------------------------------------------------------------------------ pipeline
 def run(ctx):
     binp = build_harness(ctx)
@@ -415,7 +488,7 @@ def run(ctx):
     quick = ctx.tier == "quick"
     n = 12 if quick else 60
     maxd = 3000 if quick else 100000
-    obs = run_harness(ctx, binp, ["c19", ctx.seed, n, maxd])
+    obs = run_harness(ctx, binp, ["c19", ctx.seed, n, maxd, 0 if quick else 4])
     oracle(ctx, obs)
     for o in [x for x in obs if x["kind"] == "win"][:2] + [x for x in obs if x["kind"] == "dom"][:2]:
         if o["kind"] == "win":
@@ -425,6 +498,8 @@ def run(ctx):
                         "first_pair": [fh(x) for x in o["entries"][0]["e"]] if o["entries"] else None})
     if up_to_date("Gen/Poling.vo", "Proofs/C19_tac.vo"):
         correspondence(ctx, obs, "", max_win=300 if quick else 2500)
+        if not quick:
+            full_lists(ctx, obs)
     else:
         ctx.note("correspondence cases skipped: the generated model or the case tactics are not up to date with this run "
                  "(a proof obligation upstream is broken; that obligation is the finding)")
